@@ -476,8 +476,11 @@ pub(super) fn derive_schema(input: TokenStream) -> syn::Result<TokenStream> {
                 variant_schemas.push(schema)
             }
 
+            /* tags make the variants exclusive; without them a value can have the shape of several variants ( serde takes the first ) */
+            let one_of = if container_attrs.serde.untagged {quote! {anyOf}} else {quote! {oneOf}};
+
             Ok(quote! {
-                ::ohkami::openapi::oneOf(
+                ::ohkami::openapi::#one_of(
                     ( #(#variant_schemas,)* )
                 )
             })
